@@ -843,6 +843,15 @@ def _mandatory_keys(src, fn):
         for st in stmts:
             if isinstance(st, ast.If):
                 m = re.fullmatch(r"\"([^\"]+)\"ind", _norm(src, st.test))
+                if m is None and isinstance(st.test, ast.BoolOp) and isinstance(st.test.op, ast.And):
+                    # `"k" in d and <more about d["k"]>` : the first conjunct guards the others and the body
+                    m0 = re.fullmatch(r"\"([^\"]+)\"ind", _norm(src, st.test.values[0]))
+                    if m0:
+                        for v in st.test.values[1:]:
+                            scan(v, guarded | {m0.group(1)})
+                        visit(st.body, guarded | {m0.group(1)})
+                        visit(st.orelse, guarded)
+                        continue
                 if m:
                     if _raises(st.orelse) and m.group(1) not in mand:
                         mand.append(m.group(1))
@@ -1054,6 +1063,17 @@ def gen_Validation(repo):
     L.append("/-- the dimension demanded by the setter of each quantity field -/")
     L.append("def fieldDims : List (String × Int × Int × Int) := %s\n" % lean_list(
         ["(%s, (%d : Int), (%d : Int), (%d : Int))" % ((lean_str(c + "." + p),) + field_dim(s, c, p)) for s, c, p in fields]))
+
+    # ---- UnitArray.set_value: are text items of a list recognised (and parsed as quantities)?
+    sv = _class_func(units, "UnitArray", "set_value")
+    keeps_objects = any(isinstance(n, ast.Call) and _norm(units, n.func) == "np.array" and
+                        any(k.arg == "dtype" and _norm(units, k.value) == "object" for k in n.keywords) for n in ast.walk(sv))
+    str_tests = [_norm(units, n.test) for n in ast.walk(sv) if isinstance(n, ast.If) and "str" in _norm(units, n.test)]
+    if not str_tests:
+        raise AnchorLost("units.py:UnitArray.set_value text item test")
+    L.append("/-- `UnitArray.set_value`: the test that recognises text items, and whether the items keep their Python type -/")
+    L.append("def arrayTextTests : List String := %s" % lean_list([lean_str(t) for t in str_tests]))
+    L.append("def arrayTextItemsParsed : Bool := %s\n" % ("true" if keeps_objects else "false"))
 
     # ---- units symbol checks: which label list each _check_* consults
     chk = []
